@@ -21,7 +21,10 @@ import tempfile
 import time
 
 VERIF = os.path.dirname(os.path.abspath(__file__))
-REPO = "/repo"
+# The checks rebuild from /repo's working tree. VERIF_REPO (used only by background exploration
+# runs started with "vp run --with-repo", never by the registered commands) points the build at a
+# snapshot of the repository instead, so that such a run is not disturbed by edits to /repo.
+REPO = os.environ.get("VERIF_REPO") or os.environ.get("VP_RUN_REPO") or "/repo"
 HARNESS = os.path.join(VERIF, "harness")
 BUILD = os.path.join(VERIF, "build")
 EVIDENCE = os.path.join(VERIF, "evidence")
@@ -75,12 +78,28 @@ def build_props(race=False, fuzz=False):
         cmd.append("-race")
     if fuzz:
         cmd.append("-fuzz=.")  # coverage instrumentation for native fuzzing
+    tmpmod = None
+    if REPO != "/repo":
+        # the harness go.mod replaces the module with /repo: build with a copy that names REPO
+        tmpmod = os.path.join(BUILD, "props.%d.mod" % os.getpid())
+        with open(os.path.join(HARNESS, "go.mod")) as f:
+            modtxt = f.read().replace("=> /repo", "=> " + REPO)
+        with open(tmpmod, "w") as f:
+            f.write(modtxt)
+        shutil.copy(os.path.join(HARNESS, "go.sum"), tmpmod[:-4] + ".sum")
+        cmd.insert(3, "-modfile=" + tmpmod)
     cmd.append("./props")
     lock = build_lock()
     try:
         p = subprocess.run(cmd, cwd=HARNESS, env=goenv(), stdout=subprocess.PIPE, stderr=subprocess.STDOUT, text=True)
     finally:
         lock.close()
+        if tmpmod:
+            for fn in (tmpmod, tmpmod[:-4] + ".sum"):
+                try:
+                    os.remove(fn)
+                except OSError:
+                    pass
     if p.returncode != 0:
         raise Inconclusive("build of harness failed:\n" + p.stdout[-4000:])
     return out
